@@ -979,7 +979,7 @@ impl SMessage {
                 data,
             } => json!({"t":"data","prio":prio,"length":length,"tid":tid,"sid":sid,
                 "ns_nr": ns_nr.map(|(a,b)| vec![a,b]), "offset":offset,
-                "data": if data.len() > 96 { json!({"len":data.len(),"head":hex(&data[..32]),"fill": "ramp"}) } else { json!(hex(data)) }}),
+                "data": if data.len() > 96 && *data == crate::gen::ramp(data.len()) { json!({"len":data.len(),"head":hex(&data[..32]),"fill": "ramp"}) } else if data.len() > 96 && data.iter().all(|b| *b == data[0]) { json!({"len":data.len(),"fill_octet":data[0]}) } else { json!(hex(data)) }}),
         }
     }
     pub fn from_json(v: &Value) -> Option<SMessage> {
@@ -1002,7 +1002,10 @@ impl SMessage {
                 offset: u("offset").map(|x| x as u16),
                 data: match v.get("data")? {
                     Value::String(s) => unhex(s)?,
-                    o => crate::gen::ramp(o.get("len")?.as_u64()? as usize),
+                    o => match o.get("fill_octet").and_then(|x| x.as_u64()) {
+                        Some(b) => vec![b as u8; o.get("len")?.as_u64()? as usize],
+                        None => crate::gen::ramp(o.get("len")?.as_u64()? as usize),
+                    },
                 },
             }),
             _ => None,
